@@ -14,6 +14,7 @@ import (
 	"crypto/x509/pkix"
 	"encoding/binary"
 	"encoding/pem"
+	"errors"
 	"fmt"
 	"io"
 	"math/big"
@@ -352,6 +353,11 @@ type c20Listener struct {
 	conns  chan net.Conn
 	closed chan struct{}
 	once   sync.Once
+
+	// failClose makes the Close of the connections handed out from now on
+	// close the connection and then report an error, like a tls.Conn that
+	// cannot send close_notify to a peer that has gone away.
+	failClose bool
 }
 
 func newC20Listener() *c20Listener {
@@ -384,7 +390,7 @@ func (l *c20Listener) dial() (client net.Conn, offer func() bool) {
 
 	return cli, func() bool {
 		select {
-		case l.conns <- c20Conn{Conn: srv}:
+		case l.conns <- c20Conn{Conn: srv, failClose: l.failClose}:
 			return true
 		default:
 			return false
@@ -443,6 +449,19 @@ func (c *c20PacketConn) SetWriteDeadline(time.Time) error { return nil }
 // c20Conn gives the pipe TCP addresses, which the servers expect.
 type c20Conn struct {
 	net.Conn
+	failClose bool
+}
+
+// errC20Close is what crypto/tls reports when the peer is gone.
+var errC20Close = errors.New("tls: failed to send closeNotify alert (but connection was closed anyway)")
+
+func (c c20Conn) Close() (err error) {
+	err = c.Conn.Close()
+	if err == nil && c.failClose {
+		err = errC20Close
+	}
+
+	return err
 }
 
 func (c c20Conn) LocalAddr() net.Addr {
@@ -680,7 +699,7 @@ func (w *c20World) buildServers(ctx context.Context, b *builder, o *c20Outcome) 
 
 	mtrc := &c20Metrics{}
 	answered, udpAnswered, plain := 0, 0, 0
-	var pan, where, limPb string
+	var pan, where, limPb, lostPb string
 	limConns := c20HistoryConns(conf)
 	synctest.Test(w.t, func(t *testing.T) {
 		for _, g := range b.serverGroups {
@@ -732,8 +751,12 @@ func (w *c20World) buildServers(ctx context.Context, b *builder, o *c20Outcome) 
 					if lim != nil {
 						hist = limConns
 					}
-					answered, udpAnswered, limPb = c20Exchange(ctx, l, inner, pconn,
-						baseConf.RequestContext.(*c20CtxCons), hist)
+					lost := 0
+					if cl := conf.RateLimit.ConnectionLimit; lim != nil && cl.Stop <= c20MaxHistoryConns {
+						lost = int(cl.Stop)
+					}
+					answered, udpAnswered, limPb, lostPb = c20Exchange(ctx, l, inner, pconn,
+						baseConf.RequestContext.(*c20CtxCons), hist, lost)
 				})
 				if pan != "" {
 					dnsserver.VerifRelease(l)
@@ -772,7 +795,19 @@ func (w *c20World) buildServers(ctx context.Context, b *builder, o *c20Outcome) 
 				cl.Stop, cl.Resume, limConns, limConns+1, limPb),
 		})
 	}
-	o.obs("tcp %d udp %d /%d lim %d %q", answered, udpAnswered, plain, limConns, limPb)
+	if pan == "" && len(mtrc.panics) == 0 && lostPb != "" {
+		cl := conf.RateLimit.ConnectionLimit
+		o.Problems = append(o.Problems, c20Pb{
+			Kind:  "unserviceable",
+			Where: "connlimiter close-error history",
+			Key:   "unserviceable/connection_limit-slot-lost-on-close-error",
+			Detail: fmt.Sprintf("connection_limit stop=%d resume=%d, plain-DNS server behind the real limiter: "+
+				"%d connections opened and closed one after the other, the close of the underlying connection "+
+				"reporting %q each time; nothing is active any more, but %s",
+				cl.Stop, cl.Resume, cl.Stop, errC20Close, lostPb),
+		})
+	}
+	o.obs("tcp %d udp %d /%d lim %d %q lost %q", answered, udpAnswered, plain, limConns, limPb, lostPb)
 }
 
 // c20MaxHistoryConns bounds the number of simultaneously open connections of
@@ -836,6 +871,39 @@ func c20LimiterHistory(inner *c20Listener, j int) (problem string) {
 	return ""
 }
 
+// c20CloseErrorHistory opens and closes n = stop connections one after the
+// other; the Close of the underlying connection (below the limiter's wrapper)
+// closes it and then reports an error.  Every slot must be given back all the
+// same: a further connection must be accepted and a query over it answered.
+// Same decision technique as in c20LimiterHistory.
+func c20CloseErrorHistory(inner *c20Listener, n int) (problem string) {
+	inner.failClose = true
+	for i := 0; i < n; i++ {
+		synctest.Wait()
+		cli, offer := inner.dial()
+		if !offer() {
+			_ = cli.Close()
+			inner.failClose = false
+
+			return fmt.Sprintf("connection %d of these was never accepted", i+1)
+		}
+		synctest.Wait()
+		_ = cli.Close()
+	}
+	inner.failClose = false
+	synctest.Wait()
+	cli, offer := inner.dial()
+	defer cli.Close()
+	if !offer() {
+		return "the next connection was never accepted"
+	}
+	if c20TCPQueries(cli, 1) != 1 {
+		return "the query over the next connection was not answered"
+	}
+
+	return ""
+}
+
 // c20CtxCons is the real request-context constructor of dnssvc that
 // additionally remembers the cancel functions for the teardown.
 type c20CtxCons struct {
@@ -874,7 +942,8 @@ func c20Exchange(
 	pconn *c20PacketConn,
 	cc *c20CtxCons,
 	histConns int,
-) (answered, udpAnswered int, limPb string) {
+	lostConns int,
+) (answered, udpAnswered int, limPb, lostPb string) {
 	if err := l.Start(ctx); err != nil {
 		panic(fmt.Errorf("starting: %w", err))
 	}
@@ -917,7 +986,7 @@ func c20Exchange(
 	synctest.Wait()
 	cli, offer := inner.dial()
 	if !offer() {
-		return 0, udpAnswered, ""
+		return 0, udpAnswered, "", ""
 	}
 	defer cli.Close()
 
@@ -926,8 +995,11 @@ func c20Exchange(
 	if answered == 2 && histConns > 0 {
 		limPb = c20LimiterHistory(inner, histConns)
 	}
+	if answered == 2 && limPb == "" && lostConns > 0 {
+		lostPb = c20CloseErrorHistory(inner, lostConns)
+	}
 
-	return answered, udpAnswered, limPb
+	return answered, udpAnswered, limPb, lostPb
 }
 
 // c20TCPQueries writes n pipelined queries to cli and counts the answers.
